@@ -28,7 +28,7 @@ ASSUMPTIONS = ['nan defaults only with add/sub/mul, comparisons and the structur
 
 
 def plan(tier, seed):
-    return dict(n=640 if tier == 'quick' else 40000, budget_s=80 if tier == 'quick' else 840, case_timeout=120)
+    return dict(n=1000 if tier == 'quick' else 40000, budget_s=80 if tier == 'quick' else 840, case_timeout=120)
 
 
 FVALS = [0.0, 0.0, 1.0, -1.5, 2.5, 0.5, 3.0, -0.25, 7.0, math.inf, -math.inf]
